@@ -600,12 +600,38 @@ pub fn run_c45(_prop: &str, _tier: Tier, run_seed: u64, ov: &Value) -> RunOut {
     let mut er = rng.fork(3);
     let (viol, sim_ms) = simulate(1, run_seed, async {
         let fams = [Family::Subquery, Family::Subquery, Family::Cte, Family::SetOp, Family::Distinct, Family::SelfJoin, Family::Window, Family::Join, Family::JoinAgg];
-        let sc = build_scenario(&rng, ov, &fams, 10, 0);
+        // the catalog also holds `kw`, a table whose column names are SQL keywords: the SQL
+        // the gather path GENERATES for the shards must still name those columns
+        let mut ov_kw = if ov.is_object() { ov.clone() } else { json!({}) };
+        ov_kw["keyword_table"] = json!(true);
+        let sc = build_scenario(&rng, &ov_kw, &fams, 10, 0);
         log.push(sc.world.describe().to_string());
         let n = sc.world.nodes.len();
         let mut viol: Vec<Violation> = Vec::new();
         let transport = SimTransport::new(&sc.world);
-        for (si, st) in sc.stmts.iter().enumerate() {
+        let mut stmts = sc.stmts.clone();
+        let only = ovu(ov, "only_stmt");
+        // (a shrunk replay names one statement by its index in the full list)
+        if only.map(|i| i >= 10).unwrap_or(true) {
+            if only.is_some() {
+                stmts.clear();
+            }
+            let n_generated = if only.is_some() { 10 } else { stmts.len() };
+            for (xi, sql) in [
+                "SELECT COUNT(DISTINCT \"user\") AS n, COUNT(*) AS c FROM kw",
+                "SELECT id FROM kw WHERE \"true\" = TRUE UNION SELECT id FROM kw WHERE \"order\" > 12",
+                "SELECT DISTINCT \"user\", \"true\" FROM kw WHERE \"order\" < 15",
+                "SELECT id, ROW_NUMBER() OVER (PARTITION BY \"user\" ORDER BY id) AS w FROM kw WHERE \"true\" IS NOT NULL",
+            ]
+            .iter()
+            .enumerate()
+            {
+                if only.map(|i| i == n_generated + xi).unwrap_or(true) {
+                    stmts.push(sqlgen::Stmt { sql: sql.to_string(), family: "keyword_columns", order_keys: vec![], tables: vec!["kw".to_string()], features: vec!["keyword_column_names".to_string()] });
+                }
+            }
+        }
+        for (si, st) in stmts.iter().enumerate() {
             let count = 1 + er.usize(n);
             let initiator = er.usize(count);
             let base = &sc.world.nodes[initiator].ctx;
